@@ -3,7 +3,7 @@
 //! as a fully parenthesised SQLite reference.
 
 use crate::util::Dialect;
-use sea_query::extension::postgres::PgBinOper;
+use sea_query::extension::postgres::{PgBinOper, PgFunc};
 use sea_query::extension::sqlite::SqliteBinOper;
 use crate::spec::Sel;
 use sea_query::*;
@@ -243,6 +243,20 @@ impl X {
                     ("BIT_OR", 1) => Func::bit_or(a[0].clone()).into(),
                     ("MD5", 1) => Func::md5(a[0].clone()).into(),
                     ("RANDOM", 0) => Func::random().into(),
+                    // Postgres-only functions (PgFunc): generated for Postgres text-level workloads only
+                    ("TO_TSQUERY", 1) => PgFunc::to_tsquery(a[0].clone(), None).into(),
+                    ("TO_TSVECTOR", 1) => PgFunc::to_tsvector(a[0].clone(), None).into(),
+                    ("PHRASETO_TSQUERY", 1) => PgFunc::phraseto_tsquery(a[0].clone(), None).into(),
+                    ("PLAINTO_TSQUERY", 1) => PgFunc::plainto_tsquery(a[0].clone(), None).into(),
+                    ("WEBSEARCH_TO_TSQUERY", 1) => PgFunc::websearch_to_tsquery(a[0].clone(), None).into(),
+                    ("TS_RANK", 2) => PgFunc::ts_rank(a[0].clone(), a[1].clone()).into(),
+                    ("TS_RANK_CD", 2) => PgFunc::ts_rank_cd(a[0].clone(), a[1].clone()).into(),
+                    ("STARTS_WITH", 2) => PgFunc::starts_with(a[0].clone(), a[1].clone()).into(),
+                    ("GEN_RANDOM_UUID", 0) => PgFunc::gen_random_uuid().into(),
+                    ("JSON_BUILD_OBJECT", 2) => PgFunc::json_build_object(vec![(a[0].clone(), a[1].clone())]).into(),
+                    ("JSON_BUILD_OBJECT", 4) => PgFunc::json_build_object(vec![(a[0].clone(), a[1].clone()), (a[2].clone(), a[3].clone())]).into(),
+                    ("JSON_AGG", 1) => PgFunc::json_agg(a[0].clone()).into(),
+                    ("ARRAY_AGG", 1) => PgFunc::array_agg(a[0].clone()).into(),
                     ("ROUND", 2) => Func::round_with_precision(a[0].clone(), a[1].clone()).into(),
                     (n, _) => Func::cust(Alias::new(n)).args(a).into(),
                 }
